@@ -85,7 +85,7 @@ def Sys.act (y : Sys) (j : Nat) : Sys :=
         { gs := y.gs.set r q.1,
           jobs := y.jobs.map fun c =>
             if c.id = j then { c with ph := .rel r }
-            else if granted.contains c.id then { c with ph := .acq (r + 1) false } else c }
+            else if c.id ∈ granted then { c with ph := .acq (r + 1) false } else c }
 
 def Sys.runSched : Sys → List Nat → Sys
   | y, [] => y
